@@ -169,7 +169,7 @@ func Load(repoRoot string, pkgPaths []string, externalDir string) (*Program, err
 			return nil, fmt.Errorf("load %s: %v", p.PkgPath, e)
 		}
 	}
-	sprog, _ := ssautil.AllPackages(initial, ssa.InstantiateGenerics)
+	sprog, _ := ssautil.AllPackages(initial, ssa.InstantiateGenerics|ssa.GlobalDebug)
 	prog.SSA = sprog
 	packages.Visit(initial, nil, func(p *packages.Package) {
 		prog.Pkgs[p.PkgPath] = p
